@@ -221,6 +221,12 @@ pub fn script(sc: &Value) -> Vec<String> {
     out
 }
 
+/// "" or "PS4=value": the PS4 the shell finds in its environment
+pub fn env_text(sc: &Value) -> String {
+    let ps = arr(sc, "env4");
+    if ps.is_empty() { String::new() } else { format!("PS4={}", ps4_text(ps)) }
+}
+
 pub fn dots(sc: &Value) -> Value {
     Value::Array(
         arr(sc, "dots")
@@ -630,5 +636,5 @@ pub fn random_scenario(rng: &mut StdRng) -> Value {
         prog.push(json!({"k": "synerr"}));
     }
     prog.push(cmdl(&["snap", "fin"]));
-    json!({"o": o, "prog": prog, "dots": dots})
+    json!({"o": o, "prog": prog, "dots": dots, "env4": []})
 }
